@@ -3,6 +3,7 @@
 set -u
 P=$1; K=$2; SRC=/tmp/seedout/$P/$K
 [ -f $SRC/patch.diff ] || { echo "$P-$K: no patch"; exit 2; }
+PATCHF=$SRC/patch.diff; [ -f $SRC/patch.ported.diff ] && PATCHF=$SRC/patch.ported.diff
 WT=$(mktemp -d /tmp/seedwt.XXXXXX); rmdir $WT
 git -C /repo worktree add -q --detach $WT HEAD || exit 2
 trap 'git -C /repo worktree remove --force $WT >/dev/null 2>&1; rm -rf $WT' EXIT
@@ -15,14 +16,14 @@ res() { echo "$P-$K: $1"; }
 cp $DEMO $WT/$DPATH
 go test -mod=mod -vet=off -count=1 $DPKG >/tmp/seedv.$P$K.clean.log 2>&1; CLEAN=$?
 # apply patch
-if ! git apply $SRC/patch.diff 2>/tmp/seedv.$P$K.apply.log; then res "PATCH-DOES-NOT-APPLY"; exit 1; fi
+if ! git apply $PATCHF 2>/tmp/seedv.$P$K.apply.log; then res "PATCH-DOES-NOT-APPLY"; exit 1; fi
 go build ./... >/tmp/seedv.$P$K.build.log 2>&1 || { res "DOES-NOT-BUILD"; exit 1; }
 go test -mod=mod -vet=off -count=1 $DPKG >/tmp/seedv.$P$K.demo.log 2>&1; WITH=$?
 rm $WT/$DPATH
 go test -mod=mod -vet=off -count=1 ./... >/tmp/seedv.$P$K.suite.log 2>&1; SUITE=$?
 if [ $CLEAN -eq 0 ] && [ $WITH -ne 0 ] && [ $SUITE -eq 0 ]; then
   D=/verif/seeded/$P-$K; mkdir -p $D
-  cp $SRC/patch.diff $D/patch.diff; cp $DEMO $D/; cp $SRC/demo_path.txt $D/; cp $SRC/notes.md $D/notes.md 2>/dev/null
+  cp $PATCHF $D/patch.diff; cp $DEMO $D/; cp $SRC/demo_path.txt $D/; cp $SRC/notes.md $D/notes.md 2>/dev/null
   res "CONFIRMED (demo clean=pass, demo with patch=fail, suite with patch=pass)"
 else
   res "REJECTED clean=$CLEAN with=$WITH suite=$SUITE"
